@@ -244,3 +244,17 @@ Definition pipeline (scorer : scorer_t) (policy : option policy_t) (s : screen) 
 (* the score of plate id [pid] under the conditioning the code applies *)
 Definition plate_score (scorer : scorer_t) (s : screen) (batch : list Z) (pid : Z) : Z :=
   scorer pid (rows_for s batch (get_plate s pid)).
+
+(* ---- vocabulary of the source translations (harness/src_functions.py -> Generated/SrcScoring.v):
+        the meaning given to the attribute / library calls of scoring/main.py that the translator does not
+        translate.  Definitions only. ---- *)
+(* np.random.default_rng(): the generator is only handed on (to the policy / the scorer), never read *)
+Definition rng_t : Type := unit.
+Definition fresh_rng : rng_t := tt.
+(* Plate.plate_name = screen.plate_names[selection_vector][0]: IndexError (Err 7) when the plate selects no row,
+   otherwise the name stored at its first selected row (represented by that row's position) *)
+Definition plate_name (p : plate) : result nat :=
+  match p_rows p with
+  | [] => Err 7
+  | ir :: _ => Ok (fst ir)
+  end.
